@@ -179,6 +179,21 @@ Step choose_step(HState const &h, Rng &rng, HOpts const &o){
             if (fam == fam_fourier) s.depth = std::min(s.depth, (s.type == type_tensor || s.type == type_level) ? 4 : 12);
             if (pass_limits) s.limits = gen_limits(rng, dims, cur_depth + 1);
             s.raw_overload = rng.coin(0.3);
+            if (!h.cfg.custom && (s.type == type_level || s.type == type_curved || s.type == type_hyperbolic)){
+                // cur_depth is in the units of the type the grid was made with (a polynomial degree for the ip/qp types); taken as a *level* it can ask
+                // for one-dimensional levels with 2^15 and more nodes (seed 10 of C13: level 25 on fejer2 after qptotal 23 - O(n^2) weight formulas,
+                // billions of points).  The largest 1-d level the step can reach stays within a few times the point cap; no random draw is involved.
+                auto reach = [&](int depth)->int{
+                    int top = 0;
+                    for(int i=0; i<dims; i++){
+                        int w = (s.aw.empty() || s.type == type_hyperbolic) ? 1 : std::max(1, s.aw[(size_t) i]);
+                        int l = depth / w;
+                        if (!s.limits.empty() && s.limits[(size_t) i] >= 0) l = std::min(l, s.limits[(size_t) i]);
+                        top = std::max(top, l);
+                    }
+                    return top; };
+                while (s.depth > 0 && (double) oned_num_points(g.getRule(), reach(s.depth)) > 4.0 * o.max_points) s.depth--;
+            }
             if (fam == fam_fourier && s.depth > 4){
                 // Fourier rules have 3^l points per level and curved / anisotropic selections are hard to bound a priori (one update reached 43011
                 // points): the update is tried on a copy and the depth is lowered until the result stays within a few times the point cap
